@@ -14,12 +14,15 @@ pub mod c10;
 pub mod c11;
 pub mod c12;
 pub mod c13;
+pub mod c14;
+pub mod c15;
 pub mod c16;
 pub mod c17;
 pub mod c18;
 pub mod c19;
 pub mod c20;
 pub mod numcommon;
+pub mod script;
 
 pub trait Prop {
     fn id(&self) -> &'static str;
@@ -77,6 +80,8 @@ pub fn all() -> Vec<Box<dyn Prop>> {
         Box::new(c11::C11),
         Box::new(c12::C12),
         Box::new(c13::C13),
+        Box::new(c14::C14),
+        Box::new(c15::C15),
         Box::new(c16::C16),
         Box::new(c17::C17),
         Box::new(c18::C18),
